@@ -135,6 +135,21 @@ ENGINES['ets'] = {
               'bitstream/mpeg/psi.h replaced by shim/bitstream/mpeg/psi.h (section length, syntax indicator)'],
 }
 
+ENGINES['etspes'] = {
+    'src': ['harness/ets_pes.c'],
+    'sim_src': ['sim/alloc.c', 'sim/umem_sim.c'],
+    'inc_first': ['shim'],
+    'repo_src': BUF_SRC + ['lib/upipe-ts/upipe_ts_decaps.c', 'lib/upipe-ts/upipe_ts_pes_decaps.c'],
+    'track_alloc': True,
+    'real': ['lib/upipe-ts/upipe_ts_decaps.c', 'lib/upipe-ts/upipe_ts_pes_decaps.c', 'include/upipe/ubuf_block.h',
+             'include/upipe/uref_clock.h', 'include/upipe/upipe_helper_output.h', 'lib/upipe/ubuf_block_mem.c', 'lib/upipe/uref_std.c',
+             'lib/upipe/udict_inline.c'],
+    'stubs': ['transport: reference PES / TS packetiser written from ISO/IEC 13818-1 (adaptation fields, PCR, stuffing), channel that duplicates, '
+              'inserts adaptation-only packets, loses and corrupts packets',
+              'allocator (umem_sim + malloc layer with injected failures)', 'recording sink',
+              'bitstream/mpeg/ts.h and pes.h replaced by shim/bitstream/mpeg/{ts,pes}.h'],
+}
+
 SC = ('interleavings are explored under sequential consistency at the yield points of DESIGN.md 2.1 '
       '(every uatomic operation, every plain ring-element access, every descriptor read/write)')
 
@@ -283,6 +298,24 @@ PROPS['C16'] = {
     'design_ref': 'DESIGN.md section 5, C16',
 }
 
+PROPS['C15'] = {
+    'engine': 'etspes', 'quick_time': 30, 'thorough_time': 600,
+    'rule': ('one case = 1-8 generated access units (1..4000 octets, start codes / sync octets / 0xff runs inside) wrapped by a reference packetiser into PES packets '
+             '(5 stream ids, no timestamp / PTS / PTS+DTS incl. values next to the 33-bit wrap, 0-29 header stuffing octets, bounded and unbounded length) and 188-octet TS packets '
+             '(adaptation fields of every length 0..183, PCR, random access indicator, PES header cut across packets), a channel that duplicates packets, inserts adaptation-only packets, '
+             'loses runs of 1-13 packets or overwrites 1-6 octets anywhere, buffers of up to 3 segments, allocation failures inside inputs, release at any packet; through '
+             'ts_decaps -> pes_decaps into a recording sink. Distinct = distinct plan hash.'),
+    'assumptions': ['one simulated thread; nondeterminism = what the channel does to the packet sequence, how packets are segmented in memory, when the application lets go, allocator failures',
+                    'decapsulation side only: upipe_ts_encaps.c / upipe_ts_pes_encaps.c (the round-trip clause) are not driven by this check',
+                    'bitstream/mpeg/ts.h and pes.h are hand-written stand-ins; the packets fed are produced by an independent reference packetiser in the harness, so a layout error in the stand-ins shows as a mismatch',
+                    'with corrupt packets only memory safety (ASan, umem red zones), termination, leak freedom and "no more octets out than payload octets in" are decided',
+                    'a gap must be flagged on the next buffer that reaches the sink; the first buffer ever delivered may or may not be flagged',
+                    'after an injected allocation failure only lifecycle and leak oracles stay armed'],
+    'technique': 'deterministic simulation with fault injection: a reference PES/TS packetiser feeds generated access units through a simulated channel (duplicates, adaptation-only packets, lost runs, corrupt octets, segmented buffers, allocation failures, release in mid-stream) into the real ts_decaps and pes_decaps; recovered units, timestamps, markers and discontinuity flags compared with what was carried; minimised replay files',
+    'level_note': 'sampling, not enumeration; decapsulation side only (encapsulation pipes not driven); trusted base = sim/*, the packetiser in harness/ets_pes.c, shim/bitstream/mpeg/{ts,pes}.h',
+    'design_ref': 'DESIGN.md section 5, C15',
+}
+
 TECH = 'deterministic simulation with fault injection: seeded search over schedules / fault sequences, reference-model oracle, minimised replay files'
 
 PROPS['C07'].update({
@@ -340,12 +373,12 @@ LEVEL_TEXT = {
     'C08': 'Seeded exploration of producers/consumers sleeping on simulated event descriptors around the real uqueue; any quiescent state with work left is a lost wake-up. Found and fixed the counter-based wake-up defect; evidence, not proof.',
     'C06': 'Seeded exploration of thread interleavings of the real worker, transfer and queue pipes between an application thread and worker / producer threads: every buffer arrives exactly once, in order, under the flow definition it was sent under; end of source only after the last buffer; a full queue holds and later delivers; transferred pipes are only entered from the worker thread or under the freeze mutex; forwarded events arrive on the application thread; everything terminates and nothing stays allocated. Evidence, not proof.',
     'C16': 'Seeded transport histories through the real psi_merge, psi_split and psi_join: the merger returns exactly the sections the transport delivered, in order, once, complete, and picks up again at the next unit start after a flagged loss; every output is a well-formed section whatever comes in; the splitter delivers each section unmodified to exactly the outputs whose filter/mask match; the joiner forwards every section of every input; nothing stays allocated. Evidence, not proof.',
+    'C15': 'Seeded packet sequences from an independent reference packetiser through the real ts_decaps and pes_decaps: every access unit the channel did not touch is recovered octet for octet with its DTS, PTS-DTS delay, unit start / PES end / random access markers; duplicates and adaptation-only packets change nothing; every continuity gap is flagged on the next buffer delivered and nothing else is; arbitrary corrupt packets cause no out-of-bounds access, no leak, no output out of nothing. Decapsulation side only. Evidence, not proof.',
     'C09': 'Seeded exploration of concurrent use/release on the real urefcount with a harness-side count as oracle (destructor exactly once, never early). Evidence, not proof.',
 }
 
 NOT_YET = 'not claimed yet: engine under construction (DESIGN.md section 10)'
 NOT_APPLICABLE = {
-    'C15': NOT_YET,
     'C11': 'pure arithmetic on eight integer fields of one uref: no schedule, clock, fault or second party for a simulator to vary (DESIGN.md section 6)',
     'C17': 'NAL conversion / exp-Golomb are pure functions of their input; the framers need bitstream h264/h265 headers that are absent from the sandbox (DESIGN.md section 6)',
     'C18': 'bit writer/readers are pure functions of (fields, buffer size, segmentation); nothing blocks, allocates, times out or is shared (DESIGN.md section 6)',
